@@ -92,6 +92,7 @@ def lean_ty(t) -> str:
 	if k == 'index': return 'Py.Index'
 	if k == 'idx': return 'Py.IdxVal'
 	if k == 'csel': return 'Py.CSel'
+	if k == 'pyobj': return 'Py.Obj'
 	if k == 'lsel': return 'Py.LSel'
 	if k == 'dtype': return 'Py.DType'
 	if k == 'score': return 'UInt32'
@@ -123,6 +124,7 @@ def default(t) -> str:
 	if k == 'index': return '(default : Py.Index)'
 	if k == 'idx': return '(default : Py.IdxVal)'
 	if k == 'csel': return '(default : Py.CSel)'
+	if k == 'pyobj': return 'Py.Obj.none'
 	if k == 'lsel': return '(default : Py.LSel)'
 	if k == 'dtype': return '(default : Py.DType)'
 	if k == 'score': return '(0 : UInt32)'
@@ -241,6 +243,9 @@ FUNCS = [
 	# --- util/io.py: compression detection (the stream is the environment: the bytes of the file from its beginning)
 	dict(name='guess_compression', file='util/io.py', qual='guess_compression', module='PyIo', env=[('DATA', 'List UInt8')], strings='plain',
 	     params=[('fobj', ('obj',))], ret=STR, opaque={'fobj.read(2)': ('(DATA.take 2)', BYTES)}),
+	# --- results.py: the attribute walk behind every CSV cell (an object = None / a value shown as text / a record of attributes)
+	dict(name='getattr_nested', file='results.py', qual='getattr_nested', module='PyGetattr', env=[], strings='plain',
+	     params=[('obj', ('pyobj',)), ('attrs', STR), ('pass_none', BOOL)], ret=('pyobj',), rebind_param=('attrs', 'isinstance(attrs, str)')),
 	# --- cluster.py: linkage matrix -> tree (heights as exact integers; link rows = (left, right, height, size))
 	dict(name='linkage_to_bio_tree', file='cluster.py', qual='linkage_to_bio_tree', module='PyCluster', env=[],
 	     params=[('link', LIST(TUP(INT, INT, INT, INT))), ('labels', LIST(NUM))], ret=REC('Clade'), locals={'clades': LIST(REC('Clade'))}),
@@ -447,6 +452,8 @@ class Fn:
 			return e
 		if e.ty == NONE and ty[0] == 'opt':
 			return E('none', ty, e.raises)
+		if e.ty == NONE and ty == ('pyobj',):
+			return E('Py.Obj.none', ty, e.raises)
 		if ty[0] == 'opt' and e.ty == ty[1]:
 			return E(f'(some {e.lean})', ty, e.raises)
 		if e.ty[0] == 'opt' and e.ty[1] == ty:
@@ -668,6 +675,8 @@ class Fn:
 		if isinstance(op, (ast.Is, ast.IsNot)):
 			if not isnone(r): raise Untranslatable('`is` with something other than None')
 			a = self.expr(l)
+			if a.ty == ('pyobj',):
+				return E(f'(Py.Obj.isNone {a.lean})' if isinstance(op, ast.Is) else f'(!(Py.Obj.isNone {a.lean}))', BOOL, a.raises)
 			if a.ty[0] != 'opt': raise Untranslatable(f'`is None` on non-Optional {a.ty}')
 			return E(f'({a.lean}).isNone' if isinstance(op, ast.Is) else f'({a.lean}).isSome', BOOL, a.raises)
 		if isinstance(op, (ast.In, ast.NotIn)):
@@ -967,6 +976,16 @@ class Fn:
 				if c.raises: raise Untranslatable(f'{name}() of a condition that can raise')
 				body = re.sub(rf'\bs\.{x}\b', f'x_{x}', c.lean)
 				return E(f'(({xs.lean}).{name} (fun x_{x} => {body}))', BOOL, xs.raises)
+			if name == 'isinstance' and len(args) == 2 and isinstance(args[1], ast.Name) and args[1].id == 'str' and isinstance(args[0], ast.Name):
+				a = self.value(args[0])      # decided by the declared translation type of the name
+				if a.ty == STR: return E('true', BOOL, a.raises)
+				if a.ty == LIST(STR): return E('false', BOOL, a.raises)
+				raise Untranslatable(f'isinstance(…, str) of {a.ty}')
+			if name == 'getattr' and len(args) == 2 and not kw:
+				o, a = self.value(args[0]), self.value(args[1])
+				if o.ty != ('pyobj',) or a.ty != STR: raise Untranslatable(f'getattr of {o.ty}, {a.ty}')
+				return E(f'((Py.Obj.getattr? {o.lean} {a.lean}).getD Py.Obj.none)', ('pyobj',),
+				         o.raises + a.raises + [(f'(Py.Obj.getattr? {o.lean} {a.lean}).isNone', 'AttributeError')])
 			if name == 'isinstance' and len(args) == 2 and isinstance(args[1], ast.Name) and args[1].id == 'SEQ_TYPES':
 				a = self.value(args[0])
 				if a.ty == LIST(BYTES): return E('false', BOOL, a.raises)     # a list of sequences is not itself a sequence
@@ -1171,6 +1190,8 @@ class Fn:
 				start = a[1].lean if len(a) > 1 else '(0 : Int)'
 				stop = f'(some {a[2].lean})' if len(a) > 2 else 'none'
 				return E(f'(Py.bytesFind {o.lean} {a[0].lean} {start} {stop})', INT, o.raises + guard_all(a))
+			if o.ty == STR and m == 'split' and len(args) == 1 and not kw and isinstance(args[0], ast.Constant) and isinstance(args[0].value, str) and len(args[0].value) == 1:
+				return E(f'(Py.splitOnChar {lean_char(args[0].value)} {o.lean})', LIST(STR), o.raises)
 			if o.ty == BYTES and m == 'upper' and not args: return E(f'(GambitV.upper {o.lean})', BYTES, o.raises)
 			if o.ty == BYTES and m == 'lower' and not args: return E(f'(Py.lower {o.lean})', BYTES, o.raises)
 			if o.ty[0] == 'dict' and m == 'keys' and not args: return E(f'(({o.lean}).map (·.1))', LIST(o.ty[1]), o.raises)
@@ -1840,6 +1861,10 @@ def lean_str(v: str) -> str:
 	return '"' + ''.join(c if (32 <= ord(c) < 127 and c not in '"\\') else f'\\u{{{ord(c):x}}}' for c in v) + '"'
 
 
+def lean_char(c: str) -> str:
+	return "'" + (c if (32 <= ord(c) < 127 and c not in "'\\") else f'\\u{{{ord(c):x}}}') + "'"
+
+
 def module_consts(tree: ast.Module) -> dict:
 	"""module-level NAME = <literal> (str / int / bytes / tuples of those)"""
 	out = {}
@@ -1907,6 +1932,31 @@ def split_loop_targets(node: ast.FunctionDef) -> ast.FunctionDef:
 			for x in ast.walk(l):
 				if isinstance(x, ast.Name) and x.id == name:
 					x.id = f'{name}_{k}'
+	return node
+
+
+def rebind_param(node: ast.FunctionDef, spec) -> ast.FunctionDef:
+	"""spec = (name, test text): the function starts (after the doc-string) with `if <test>: name = <expr>` where the test is decided
+	true by the declared type of `name` (e.g. `isinstance(attrs, str)` for a parameter declared as text).  The re-bound value gets a
+	name of its own, `<name>_2`, in that statement and everywhere after it, so that each variable has one type."""
+	import copy
+	node = copy.deepcopy(node)
+	name, test = spec
+	body = node.body
+	k = 1 if body and isinstance(body[0], ast.Expr) and isinstance(body[0].value, ast.Constant) and isinstance(body[0].value.value, str) else 0
+	st = body[k] if len(body) > k else None
+	ok = (isinstance(st, ast.If) and ast.unparse(st.test) == test and not st.orelse and len(st.body) == 1 and isinstance(st.body[0], ast.Assign)
+	      and len(st.body[0].targets) == 1 and isinstance(st.body[0].targets[0], ast.Name) and st.body[0].targets[0].id == name)
+	if not ok:
+		raise Untranslatable(f'{node.name}: expected `if {test}: {name} = …` as the first statement')
+	if any(isinstance(x, ast.Name) and x.id == name and isinstance(x.ctx, ast.Store) for s_ in body[k + 1:] for x in ast.walk(s_)):
+		raise Untranslatable(f'{node.name}: {name} is assigned again later')
+	st.body[0].targets[0].id = name + '_2'
+	body[k] = st.body[0]      # the test is true for every value of the declared type: only the assignment remains
+	for s_ in body[k + 1:]:
+		for x in ast.walk(s_):
+			if isinstance(x, ast.Name) and x.id == name:
+				x.id = name + '_2'
 	return node
 
 
@@ -2000,6 +2050,11 @@ def regenerate(repo: Path, out_dir: Path, stub: set = frozenset()) -> dict:
 			node = rename_locals(node)
 			if d.get('split_loop_targets'):
 				node = split_loop_targets(node)
+			if d.get('rebind_param'):
+				rn, rt = d['rebind_param']
+				if rt != f'isinstance({rn}, str)' or dict(d['params']).get(rn) != STR:
+					raise Untranslatable('rebind_param: only `isinstance(<text parameter>, str)` is decided by the declared type')
+				node = rebind_param(node, d['rebind_param'])
 			if d.get('self_as_vars'):
 				node = self_attrs_to_names(node, d['self_as_vars'])
 			fn = Fn(d, node, known)
